@@ -15,8 +15,8 @@ closed forms and accumulate in exact integers.  Here every value the C++ stores 
   Sigma.cpp:92-95   `sigma4 *= a`, `sigma6 = -sigma6`, `sigma4 + sigma5`, `… + sigma6`
   Sigma.cpp:127-131 (int64_t) / 168-172 (int128_t)  the four additions `Sigma0 + Sigma1 + Sigma2 + Sigma3 + Sigma456`
   S2_trivial.cpp:64-70  `sum += pi_y - pi[xpp]` (`pi_y - pi[xpp]` is an `int64_t` difference, `sum` is `T`)
-  S2_trivial.cpp:76-82  `n`, `a1`, `a2` (`int64_t`), `a1 + a2` (`int64_t`), `n * (a1 + a2)` — an `int64_t` PRODUCT also for
-                        `T = int128_t` —, `/ 2`, `sum += …`
+  S2_trivial.cpp:78-81  `pi[y-1] - pi[prime]`, `… + 1`, `pi[y] - pi[y-1]`, `pi[y] - pi[prime]` (`int64_t`; then `T n`, `T a1`, `T a2`),
+                        `a1 + a2`, `n * (a1 + a2)`, `/ 2` (all `T`), `sum += …`
 
 A closed form "all intermediates in range" is expressed as: the list of the exact intermediate values (in evaluation order)
 lies in `T`; since every value is computed from earlier in-range exact values, this is equivalent to "no step overflows".
@@ -175,11 +175,14 @@ def s2TrivLoopC (tMax : Nat) (t : NT) (w : ITy) (x y : Nat) (piY : Int) : List N
       let s ← ckS tMax .ovfAcc (sum + dlt)
       s2TrivLoopC tMax t w x y piY qs s
 
-/-- the values of S2_trivial.cpp:76-82 that live in `int64_t`: `n = pi[y - 1] - pi[prime] + 1` (two steps), `a1`, `a2`,
-    `a1 + a2`, and the `int64_t` product `n * (a1 + a2)` (both operands are `int64_t` WHATEVER `T` is), `… / 2` -/
-def s2TrivTailVals (piY piY1 piP : Int) : List Int :=
-  [piY1 - piP, piY1 - piP + 1, piY - piY1, piY - piP, (piY - piY1) + (piY - piP),
-   (piY1 - piP + 1) * ((piY - piY1) + (piY - piP)), Int.tdiv ((piY1 - piP + 1) * ((piY - piY1) + (piY - piP))) 2]
+/-- the values of S2_trivial.cpp:78-80 computed in `int64_t` (`pi[·]` returns `int64_t`): `pi[y-1] - pi[prime]`, `… + 1`,
+    `pi[y] - pi[y-1]`, `pi[y] - pi[prime]` (then converted to `T n`, `T a1`, `T a2`) -/
+def s2TrivTail64 (piY piY1 piP : Int) : List Int := [piY1 - piP, piY1 - piP + 1, piY - piY1, piY - piP]
+
+/-- the values of S2_trivial.cpp:81 computed in `T`: `a1 + a2`, `n * (a1 + a2)`, `… / 2` -/
+def s2TrivTailT (piY piY1 piP : Int) : List Int :=
+  [(piY - piY1) + (piY - piP), (piY1 - piP + 1) * ((piY - piY1) + (piY - piP)),
+   Int.tdiv ((piY1 - piP + 1) * ((piY - piY1) + (piY - piP))) 2]
 
 /-- `S2_trivial(x, y, z, c, threads)` with every stored value checked -/
 def s2TrivialC (tMax : Nat) (t : NT) (w : ITy) (x y z c : Nat) : WM Int :=
@@ -196,7 +199,7 @@ def s2TrivialC (tMax : Nat) (t : NT) (w : ITy) (x y z c : Nat) : WM Int :=
   | some prime => do
     let piY1 ← liftL (piGet t y (y - 1))
     let piP ← liftL (piGet t y prime)
-    if !(s2TrivTailVals piY piY1 piP).all in64 then throw .ovfClosed
+    if !((s2TrivTail64 piY piY1 piP).all in64 && (s2TrivTailT piY piY1 piP).all (inS tMax)) then throw .ovfClosed
     let n : Int := ((piY1 : Int) - piP) + 1
     let a1 : Int := (piY : Int) - piY1
     let a2 : Int := (piY : Int) - piP
